@@ -19,6 +19,13 @@ structure StrictTotal (lt : α → α → Bool) : Prop where
   trans : ∀ a b c, lt a b = true → lt b c = true → lt a c = true
   total : ∀ a b, lt a b = true ∨ a = b ∨ lt b a = true
 
+/-- The order of the driver (symbols are integers, the rank of the character). -/
+theorem strictTotal_int : StrictTotal (fun a b : Int => decide (a < b)) :=
+  ⟨by intro a; simp, by intro a b c; simp; omega, by intro a b; simp; omega⟩
+
+theorem strictTotal_nat : StrictTotal (fun a b : Nat => decide (a < b)) :=
+  ⟨by intro a; simp, by intro a b c; simp; omega, by intro a b; simp; omega⟩
+
 section order
 variable {lt : α → α → Bool} (ho : StrictTotal lt)
 include ho
